@@ -20,10 +20,17 @@ Record Oracles (A : Type) := {
   o_poisson_cdf : A -> A -> A;    (* scipy.stats.poisson.cdf(x, mean) *)
   o_poisson_ppf : A -> A -> A;    (* scipy.stats.poisson.ppf(q, mean) *)
   (* stockpyl.optimization.golden_section_search(f, a, b): a higher-order oracle; None = the search raised *)
-  o_gss : (A -> option A) -> A -> A -> option (A * A)
+  o_gss : (A -> option A) -> A -> A -> option (A * A);
+  o_pow : A -> A -> A;            (* float ** float  (libm pow; used by FOps only, ROps uses Rpower) *)
+  o_powi : A -> Z -> A;           (* float ** <int literal >= 3>  (libm pow; used by FOps only, ROps uses x ^ n) *)
+  (* further library functions by number, arguments as a list:
+     100 scipy.stats.gamma.pdf(x, a, scale=b)   101 gamma.cdf(x, a, scale=b)   102 gamma.mean(a, scale=b)
+     103 scipy.stats.nbinom.pmf(x, r, p)        104 nbinom.cdf(x, r, p) *)
+  o_lib : Z -> list A -> A
 }.
 Arguments o_exp {A}. Arguments o_log {A}. Arguments o_norm_cdf {A}. Arguments o_norm_pdf {A}. Arguments o_norm_ppf {A}.
 Arguments o_poisson_pmf {A}. Arguments o_poisson_cdf {A}. Arguments o_poisson_ppf {A}. Arguments o_gss {A}.
+Arguments o_pow {A}. Arguments o_powi {A}. Arguments o_lib {A}.
 
 Record Ops := {
   T : Type;
@@ -35,7 +42,10 @@ Record Ops := {
   exp_ : T -> T; log_ : T -> T;
   norm_cdf : T -> T; norm_pdf : T -> T; norm_ppf : T -> T;
   poisson_pmf : T -> T -> T; poisson_cdf : T -> T -> T; poisson_ppf : T -> T -> T;
-  gss : (T -> option T) -> T -> T -> option (T * T)
+  gss : (T -> option T) -> T -> T -> option (T * T);
+  pow_ : T -> T -> T;             (* a ** b, b not a literal *)
+  powi : T -> Z -> T;             (* a ** k, k an integer literal >= 3  (k = 2 is translated as a * a) *)
+  lib : Z -> list T -> T
 }.
 
 (* ---------------------------------------------------------------- reals *)
@@ -51,7 +61,7 @@ Definition ROps (o : Oracles R) : Ops := {|
   exp_ := Rtrigo_def.exp; log_ := ln;
   norm_cdf := o_norm_cdf o; norm_pdf := o_norm_pdf o; norm_ppf := o_norm_ppf o;
   poisson_pmf := o_poisson_pmf o; poisson_cdf := o_poisson_cdf o; poisson_ppf := o_poisson_ppf o;
-  gss := o_gss o |}.
+  gss := o_gss o; pow_ := Rpower; powi := fun x n => pow x (Z.to_nat n); lib := o_lib o |}.
 
 Lemma Rltb_spec a b : reflect (a < b)%R (Rltb a b).
 Proof. unfold Rltb. destruct (Rlt_dec a b); constructor; assumption. Qed.
@@ -84,7 +94,7 @@ Definition FOps (o : Oracles PrimFloat.float) : Ops := {|
   exp_ := o_exp o; log_ := o_log o;
   norm_cdf := o_norm_cdf o; norm_pdf := o_norm_pdf o; norm_ppf := o_norm_ppf o;
   poisson_pmf := o_poisson_pmf o; poisson_cdf := o_poisson_cdf o; poisson_ppf := o_poisson_ppf o;
-  gss := o_gss o |}.
+  gss := o_gss o; pow_ := o_pow o; powi := o_powi o; lib := o_lib o |}.
 
 (* oracle tables for FOps: (function id, arguments, recorded value); a missing entry gives nan, which can
    never compare equal to the implementation's result *)
@@ -108,7 +118,10 @@ Definition FOracles (tbl : list (Z * list PrimFloat.float * PrimFloat.float)) : 
   o_poisson_pmf := fun x m => flookup tbl 5 [x; m];
   o_poisson_cdf := fun x m => flookup tbl 6 [x; m];
   o_poisson_ppf := fun q m => flookup tbl 7 [q; m];
-  o_gss := fun _ a b => Some (flookup tbl 8 [a; b], flookup tbl 9 [a; b]) |}.
+  o_gss := fun _ a b => Some (flookup tbl 8 [a; b], flookup tbl 9 [a; b]);
+  o_pow := fun a b => flookup tbl 20 [a; b];
+  o_powi := fun a n => flookup tbl 21 [a; FofZ n];
+  o_lib := fun id args => flookup tbl id args |}.
 
 (* exact observation of a binary64 value as integers: (kind, signed mantissa, exponent)
    kind 0: finite non-zero = mantissa * 2^exponent; 1: zero (mantissa = 1 for -0); 2: infinity (mantissa = sign); 3: nan *)
